@@ -17,13 +17,14 @@ store history → `proxyView` → `encodeFor` → wire → `setMeta` → `routeW
 * `hs <dst proxy> <sub> <key>`        → reply of `UMCTL <sub>` at the destination proxy
 * `src <src proxy> <event> <key>`     → `ok` (source-side step of the migrating task)
 * `states`                            → every task of every proxy, sorted
-* `gate <level>`                      → `ok` (harness-only: how far the real handshake may proceed)
+* `gate <level> [<src proxy>]`        → `ok` (harness-only: how far the real handshake may proceed)
+* `kill <addr>`                       → `ok` (the proxy process is gone)
 * `follow <start> <slot> <picks|->`   → `k=<MOVED seen> <hop>;<hop>…`; `<picks>` = the MOVED targets
                                          the implementation answered, used only to resolve the order
                                          of an overlapping peer map (DESIGN §2.3) — a target that is
                                          not an allowed one leaves the prediction unchanged and shows
                                          up as a difference
-* `late <proxy> <slot>`               → one routing step (a queued command re-sent at release)
+* `late <proxy> <slot> <pick|->`      → one routing step (a queued command re-sent at release)
 `<key>` = `<cluster> <epoch> <ranges> <src proxy> <src node> <dst proxy> <dst node>`.
 -/
 namespace Um.Drv.RouteE2E
@@ -184,7 +185,9 @@ def step (s : St) (toks : List String) : St × String :=
     | some p, some e, some k => (s.setProxy a (srcStep p k e), "ok")
     | _, _, _ => (s, "bad-op")
   | ["states"] => (s, renderStates s)
-  | ["gate", _] => (s, "ok")
+  | "gate" :: _ => (s, "ok")
+  | ["kill", a] =>
+    ({ s with net := s.net.filter (·.1 != a), views := s.views.filter (·.1 != a), metas := s.metas.filter (·.1 != a) }, "ok")
   | ["follow", start, slot, picks] =>
     match slot.toNat? with
     | none => (s, "bad-op")
@@ -192,9 +195,9 @@ def step (s : St) (toks : List String) : St × String :=
       let ps := if picks == "-" then [] else picks.splitOn ","
       let (k, hops) := followTrace s sl 8 start ps
       (s, s!"k={k} {";".intercalate hops}")
-  | ["late", a, slot] =>
+  | ["late", a, slot, pick] =>
     match slot.toNat?, s.proxy? a with
-    | some sl, some p => (s, renderOutcome a (routeAt s a p sl none))
+    | some sl, some p => (s, renderOutcome a (routeAt s a p sl (if pick == "-" then none else some pick)))
     | _, _ => (s, "bad-op")
   | _ => (s, "bad-op")
 
